@@ -528,6 +528,7 @@ func (c *Ctx) calledOnlyFromRing(fn *ssa.Function) bool {
 func (c *Ctx) ringAnalyzer() *bounds.Analyzer {
 	minSize := c.ringMin
 	an := bounds.NewAnalyzer(c.P)
+	an.JoinFacts = true
 	an.Invariant = func(a *bounds.Analyzer, st *bounds.State, owner, field, obj string) (bounds.AVal, bool) {
 		if owner != "service.buffer" {
 			return bounds.AVal{}, false
